@@ -259,7 +259,7 @@ def _rule_concatenate_structural(ctx):
                             wrong = 'position %d of %d-d arrays is read as %d' % (ax, nd, got)
                     # (what happens to a position outside -ndim..ndim-1 is not part of the property: "every concatenation axis by name or position" are the valid ones)
             if wrong:
-                ctx.violated('R3', fi, 'axis position mis-normalised', 'concatenate(axis=<int>): %s' % wrong, node=p.node)
+                ctx.violated('R3', fi, 'axis position mis-normalised', 'concatenate(axis=<int>): %s' % wrong, node=p.node, firm=True)
                 continue
             ok = vals[0] == 'call' and T.dotted(vals[1]) == 'np.concatenate' and vals[2] and vals[2][0][0] == 'comp' and T.kw(vals, 'axis') == AXU \
                 and vals[2][0][2] == ('attr', ('elem', vals[2][0][3][0][1], vals[2][0][3][0][0]), 'values')
